@@ -98,6 +98,67 @@ pub fn vf_flat_map_collect<'a, T: Queryable + 'a, G: Fn(Pointer<'a, T>) -> Vec<P
     r
 }
 
+// R7: X.into_iter().map(F).flat_map(G).collect::<Vec<_>>()   (X: &Vec<A>, so F sees references)
+// assumed (primitive, relational): F is applied to a reference to every element in order, G to each of F's results in order;
+// the outputs of G are concatenated in input order
+pub open spec fn rmf_ok<'x, A, B, C, F: Fn(&'x A) -> B, G: Fn(B) -> Vec<C>>(f: F, g: G, x: &'x Vec<A>, mids: Seq<B>, parts: Seq<Vec<C>>, r: Seq<C>) -> bool {
+    mids.len() == x@.len() && parts.len() == x@.len()
+    && (forall|i: int| 0 <= i < x@.len() ==> f.ensures((&x@[i],), #[trigger] mids[i]))
+    && (forall|i: int| 0 <= i < x@.len() ==> g.ensures((mids[i],), #[trigger] parts[i]))
+    && r == concat(views(parts))
+}
+#[verifier::external_body]
+pub fn vf_ref_map_flat_map_collect_raw<'x, A, B, C, F: Fn(&'x A) -> B, G: Fn(B) -> Vec<C>>(x: &'x Vec<A>, f: F, g: G) -> (r: Vec<C>)
+    requires forall|i: int| 0 <= i < x@.len() ==> f.requires((&#[trigger] x@[i],)), forall|b: B| g.requires((b,)),
+    ensures exists|mids: Seq<B>, parts: Seq<Vec<C>>| rmf_ok(f, g, x, mids, parts, r@),
+{ x.into_iter().map(f).flat_map(g).collect::<Vec<_>>() }
+
+pub proof fn lemma_cow_vals_add<'a, T: Clone>(a: Seq<Cow<'a, T>>, b: Seq<Cow<'a, T>>)
+    ensures cow_vals(a + b) == cow_vals(a) + cow_vals(b),
+{ assert(cow_vals(a + b) =~= cow_vals(a) + cow_vals(b)); }
+pub proof fn lemma_cow_concat<'a, T: Clone>(parts: Seq<Vec<Cow<'a, T>>>, h: spec_fn(int) -> Seq<T>)
+    requires forall|i: int| 0 <= i < parts.len() ==> cow_vals(#[trigger] parts[i]@) == h(i),
+    ensures cow_vals(concat(views(parts))) == concat(Seq::new(parts.len(), h)),
+    decreases parts.len(),
+{
+    if parts.len() == 0 {
+        assert(cow_vals(Seq::<Cow<'a, T>>::empty()) =~= Seq::<T>::empty());
+    } else {
+        let n = parts.len() - 1;
+        lemma_cow_concat(parts.drop_last(), h);
+        assert(views(parts).drop_last() =~= views(parts.drop_last()));
+        assert(views(parts).last() == parts[n]@);
+        lemma_cow_vals_add(concat(views(parts.drop_last())), parts[n]@);
+        assert(Seq::new(parts.len(), h).drop_last() =~= Seq::new(parts.drop_last().len(), h));
+        assert(Seq::new(parts.len(), h).last() == h(n));
+    }
+}
+// proved wrapper (glue, not assumed): value-level functional form used by `custom`.  If for the i-th element every output of
+// G on every output of F denotes the values h(i), the result denotes the concatenation of h(0), h(1), ..
+pub fn vf_ref_map_flat_map_collect<'x, 'a, A, B, T: Clone, F: Fn(&'x A) -> B, G: Fn(B) -> Vec<Cow<'a, T>>>(x: &'x Vec<A>, f: F, g: G) -> (r: Vec<Cow<'a, T>>)
+    requires forall|i: int| 0 <= i < x@.len() ==> f.requires((&#[trigger] x@[i],)), forall|b: B| g.requires((b,)),
+    ensures forall|h: spec_fn(int) -> Seq<T>|
+        (forall|i: int, b: B, o: Vec<Cow<'a, T>>| 0 <= i < x@.len() && #[trigger] f.ensures((&x@[i],), b) && #[trigger] g.ensures((b,), o) ==> cow_vals(o@) == h(i))
+        ==> cow_vals(r@) == #[trigger] concat(Seq::new(x@.len(), h)),
+{
+    let ghost ff = f;
+    let ghost gg = g;
+    let r = vf_ref_map_flat_map_collect_raw(x, f, g);
+    proof {
+        let (mids, parts) = choose|mids: Seq<B>, parts: Seq<Vec<Cow<'a, T>>>| rmf_ok(ff, gg, x, mids, parts, r@);
+        assert forall|h: spec_fn(int) -> Seq<T>|
+            (forall|i: int, b: B, o: Vec<Cow<'a, T>>| 0 <= i < x@.len() && #[trigger] ff.ensures((&x@[i],), b) && #[trigger] gg.ensures((b,), o) ==> cow_vals(o@) == h(i))
+            implies cow_vals(r@) == #[trigger] concat(Seq::new(x@.len(), h)) by {
+            assert forall|i: int| 0 <= i < parts.len() implies cow_vals(#[trigger] parts[i]@) == h(i) by {
+                assert(ff.ensures((&x@[i],), mids[i]));
+                assert(gg.ensures((mids[i],), parts[i]));
+            }
+            lemma_cow_concat(parts, h);
+        }
+    }
+    r
+}
+
 // R5: X.iter().any(P) / X.iter().all(P)
 #[verifier::external_body]
 pub fn vf_iter_any<A, P: Fn(&A) -> bool>(x: &Vec<A>, p: P) -> (r: bool)
